@@ -101,13 +101,27 @@ def main(out):
         idx = np.arange(f % 7, tp.n_atoms, 7)
         xp[f, idx] += rsp.randint(-1, 2, size=(len(idx), 3)) @ V[f]
     tp.xyz = xp.astype(np.float32)
+    # a third one: a hexagonal-prism like cell whose a and b vectors never change while the height and one tilt component do
+    # (constant-area runs): a frame's result may not depend on which components it happens to share with its predecessor
+    tq = md.Trajectory(t.xyz.copy(), t.topology)
+    Vq = np.zeros((t.n_frames, 3, 3))
+    for f in range(t.n_frames):
+        Vq[f] = [[6.0, 0.0, 0.0], [-3.0, 5.2 + (0.3 * (f % 3) if f % 2 else 0.0), 0.0], [0.0, 1.0 + 0.4 * (f % 4), 6.5 + 0.25 * f]]
+    tq.unitcell_vectors = Vq.astype(np.float32)
+    Vq = tq.unitcell_vectors.astype(np.float64)
+    xq = tq.xyz.astype(np.float64)
+    for f in range(tq.n_frames):
+        idx = np.arange((f + 3) % 5, tq.n_atoms, 5)
+        xq[f, idx] += rsp.randint(-1, 2, size=(len(idx), 3)) @ Vq[f]
+    tq.xyz = xq.astype(np.float32)
     MIXED = ("distances", "displacements", "angles", "dihedrals", "phi", "chi1", "contacts_closest", "contacts_ca", "wernet_nilsson", "neighbors", "neighborlist")
     import os
     if os.environ.get("HISTORY") == "1":
         prelude()
     res = {}
     fs = functions()
-    jobs = [(name, f, t) for name, f in fs.items()] + [(name + "@mixedcells", fs[name], tp) for name in MIXED]
+    jobs = [(name, f, t) for name, f in fs.items()] + [(name + "@mixedcells", fs[name], tp) for name in MIXED] \
+        + [(name + "@constant_ab", fs[name], tq) for name in MIXED]
     for name, f, t in jobs:
         if f is None:
             continue
